@@ -60,6 +60,8 @@ pub mod gen_files;
 #[cfg(kani)]
 pub mod c20;
 #[cfg(kani)]
+pub mod c20t;
+#[cfg(kani)]
 pub mod c18t;
 #[cfg(kani)]
 pub mod c16t;
